@@ -291,7 +291,25 @@ template <class T> static void runPlanes (int far)
     if (idot (nI, isub (a1, a0)) == 0)
     {
         ++counts["plane_line_exactly_parallel"];
+        ++counts[std::string ("plane_line_exactly_parallel:") + tname<T> ()];
         if (okT) ++counts[std::string ("plane_line_exactly_parallel_reported_hit:") + tname<T> ()];
+        // JUDGED (was only counted): a lattice line parallel to the lattice plane at distance h > 0 never meets it.  `true` happens when
+        // normal.dir of the two ROUNDED unit vectors is rounding noise instead of 0; the parameter is then ~h/eps and the returned point
+        // is neither near the configuration nor on the plane ("line-plane intersections lie on both")
+        Q h = qabs (dot (n, iq (a0)) - d);
+        if (h > 0)
+        {
+            ++evals;
+            ++counts[std::string ("plane_line_parallel_off_plane:") + tname<T> ()];
+            if (okT)
+            {
+                ++counts[std::string ("plane_line_parallel_off_plane_reported_hit:") + tname<T> ()];
+                char b[260];
+                snprintf (b, 260, "intersectT returned true, t = %.6g, point (%.6g %.6g %.6g); the line is parallel to the plane at distance %.6g",
+                          (double) tpar, (double) hit.x, (double) hit.y, (double) hit.z, (double) h);
+                flag ("Plane3.intersectT", "lattice-parallel-line-reported-hit", tname<T> (), b, in3);
+            }
+        }
         return;
     }
     Q cosq = dot (n, dq), ts = (d - dot (n, iq (a0))) / cosq;
